@@ -10,6 +10,7 @@ CONSTANTS
   PREC = {}
   MAXFULL = {}
   SOLVER = {}
+  SCALES = {"unit", "bigcore", "small"}
   SYSCLS = {}
 INVARIANT WellTyped
 CHECK_DEADLOCK FALSE
